@@ -15,6 +15,20 @@ type Clause struct {
 	E      SExpr
 	Src    string
 	Reveal []string // opaque predicates whose definitions this clause's proof may use
+	Props  []string // "[C16] expr": the clause belongs to these properties only (default: the function's)
+}
+
+// splitClauseProps: "[C16 C17] expr" -> (["C16","C17"], "expr")
+func splitClauseProps(text string) ([]string, string) {
+	t := strings.TrimSpace(text)
+	if !strings.HasPrefix(t, "[") {
+		return nil, text
+	}
+	i := strings.Index(t, "]")
+	if i < 0 {
+		return nil, text
+	}
+	return strings.Fields(t[1:i]), strings.TrimSpace(t[i+1:])
 }
 
 // splitReveal: "reveal(P, Q) expr" -> (["P","Q"], "expr")
@@ -423,15 +437,16 @@ func (db *ContractDB) LoadContracts(path, pkgPath string) error {
 						}
 						continue
 					}
-					rv, txt := splitReveal(c.text)
+					cps, txt0 := splitClauseProps(c.text)
+					rv, txt := splitReveal(txt0)
 					e, err := parseSpec(txt)
 					if err != nil {
 						return fmt.Errorf("%s: %v", where, err)
 					}
 					if c.kw == "requires" {
-						fc.Requires = append(fc.Requires, Clause{e, c.text, rv})
+						fc.Requires = append(fc.Requires, Clause{e, c.text, rv, cps})
 					} else {
-						fc.Ensures = append(fc.Ensures, Clause{e, c.text, rv})
+						fc.Ensures = append(fc.Ensures, Clause{e, c.text, rv, cps})
 					}
 				case "pure":
 					fc.HasModifies = true
@@ -510,7 +525,7 @@ func (db *ContractDB) LoadContracts(path, pkgPath string) error {
 						if err != nil {
 							return fmt.Errorf("%s: %v", where, err)
 						}
-						lc.Invariants = append(lc.Invariants, Clause{e, restText, rv})
+						lc.Invariants = append(lc.Invariants, Clause{E: e, Src: restText, Reveal: rv})
 					case "decreases":
 						e, err := parseSpec(restText)
 						if err != nil {
